@@ -206,7 +206,7 @@ fn take_snapshot(pi: usize, code: &'static str) -> Q1Snap {
     for (oi, os) in world.outs.iter().enumerate() {
         let Some(si) = os.src else { continue };
         let st = &world.streams[si];
-        snap.pipes.push((oi, si, st.pushed.len(), st.processed.len(), st.processed.iter().filter(|p| p.2.is_some()).count(), os.outputs.len(), os.depth, os.dropped_at.is_some(), os.waiting.is_some()));
+        snap.pipes.push((oi, si, st.pushed.len(), st.processed.len(), st.processed.iter().filter(|p| p.2.is_some()).count(), os.outputs.len(), if os.depth_dirty { 0 } else { os.depth }, os.dropped_at.is_some(), os.waiting.is_some()));
     }
     // everything is quiet: a caller asleep in sync on a queue that it could claim will not be woken by anybody
     let infos = kernel::task_infos();
